@@ -344,12 +344,17 @@ def _exemption(model: Model, za: ZoneAnalysis, s: Source, need: str) -> t.Option
         name = f.qualname.split('.')[-2]
         ok_args = True
         n_calls = 0
-        for c in ast.walk(mk.node):
-            if isinstance(c, ast.Call) and isinstance(c.func, ast.Name) and c.func.id == name and c.args:
-                n_calls += 1
-                a0 = unparse(c.args[0])
-                if a0 not in ('type(ty)', 'base'):
-                    ok_args = False
+        mcfg = cfg_of(model, mk)
+        mnz = Normalizer(model, mk, mcfg, param_map={p_: f'${p_}' for p_ in mk.params})
+        for mn in mcfg.live_nodes():
+            for root in node_exprs(mn):
+                for c in walk_no_nested(root):
+                    if isinstance(c, ast.Call) and c.args and (model.resolve(c.func, mk.module, mk) or '').endswith('.' + name):
+                        n_calls += 1
+                        a0 = mnz.expr(c.args[0], mn)
+                        # type(<struct / tuple literal>)  or  the origin class of a tuple type
+                        if not (a0 == 'type($ty)' or a0.startswith('(typing.get_origin($ty) or ')):
+                            ok_args = False
         if n_calls and ok_args:
             return ("target constructor of a struct/tuple literal type: make_converter passes only type(<literal>) or a tuple base, "
                     "whose constructor is total on a dict / iterator (re-verified at the construction arms)")
